@@ -6,7 +6,7 @@ if ! git -C /repo diff --quiet; then echo "run_mutant: /repo is dirty, refusing"
 git -C /repo apply "$P" || { echo "run_mutant: patch does not apply"; exit 2; }
 trap 'git -C /repo checkout -- . ; git -C /repo clean -fdq src tests examples 2>/dev/null' EXIT INT TERM
 START=$(date +%s)
-VERIF_EVIDENCE_KEEP=1 ./check "$PROP" "$TIER" > /tmp/mutant.out 2>&1
+VERIF_EVIDENCE_DIR=/tmp/mutant-evidence ./check "$PROP" "$TIER" > /tmp/mutant.out 2>&1
 RC=$?
 END=$(date +%s)
 grep -E "VIOLATION|class=|harness error|KNOWN|^rfsim:|^check:" /tmp/mutant.out | head -12
